@@ -92,7 +92,7 @@ sites! {
     AM_LEAK_AFTER_RESERVE, AM_LEAK_FULL_BEFORE_RECEDE, AM_LEAK_RECEDE_FAILED,
     AM_PUBLISH_BEFORE, AM_PUBLISH_SPIN, AM_PUBLISH_INDEX_BEFORE, AM_UNLEAK_INDEX_BEFORE,
     AM_CONSUME_AFTER_RESERVE, AM_CONSUME_EMPTY_BEFORE_RECEDE, AM_CONSUME_RECEDE_FAILED,
-    AM_CONSUME_AFTER_READ, AM_RELEASE_SPIN, AM_LEN_QUERY,
+    AM_CONSUME_AFTER_READ, AM_RELEASE_SPIN, AM_LEN_QUERY, AM_PUBLISH_AFTER, AM_RELEASE_AFTER,
     // full_sync_move
     FS_LEAK_LOCKED, FS_PUBLISH_BEFORE, FS_CONSUME_LOCKED, FS_CONSUME_AFTER_READ, FS_LEN_QUERY, FS_LEN_BETWEEN_READS,
     // ogre_array_pool_allocator
